@@ -511,7 +511,7 @@ def run(ctx):
         points += run_stub(CC, "replay", keys, [[M]], inp["cellmass_g_per_mol"], [inp["volume_bohr3"]], [300.0], 0.9)
 
     # -- 1. stub calculators ------------------------------------------------------------------------
-    nfields = 100 if quick else 3000
+    nfields = 100 if quick else 10000
     for n in range(nfields):
         cls = CLASSES[n % len(CLASSES)]
         nt, ntv = rng.choice([(2, 3), (1, 4), (3, 2), (3, 4)] if not quick else [(2, 3), (1, 4), (3, 2)])
@@ -530,7 +530,7 @@ def run(ctx):
 
     # -- 2. complete Calculator runs ----------------------------------------------------------------
     import synth
-    ncalc = 2 if quick else 20
+    ncalc = 2 if quick else 40
     for n in range(ncalc):
         keyset = [synth.ORTHO + ["46"], synth.ALL_KEYS, synth.ORTHO + ["15", "25", "35", "46"], synth.ORTHO,
                   synth.ORTHO + ["45", "56"]][n % 5]
@@ -612,7 +612,7 @@ def run(ctx):
     # -- 5. search stage ----------------------------------------------------------------------------
     # exact rational oracle on every failing case and on the first grid point of every field,
     # float evaluation of the same oracle on everything else
-    exact_budget = 150 if quick else 4500
+    exact_budget = 150 if quick else 15000
     seen_labels = set()
     n_exact = n_float = 0
     for i, p in enumerate(points):
